@@ -124,3 +124,7 @@ Proof.
   intros prev maxl. unfold g_raman_allowed, raman_allowed. destruct prev as [b p | lcs |]; try reflexivity.
   induction lcs as [| y t IH]; [reflexivity |]. cbn [forallb all_lt]. rewrite IH. reflexivity.
 Qed.
+
+(* ------------------------------------------------------------------ edfa_nf, module state (template-matched only) *)
+Theorem gen_nf_of_entry_at_hand : g_nf_of_entry_at_hand = true.
+Proof. reflexivity. Qed.
